@@ -1,13 +1,18 @@
 package c08
 
 import (
+	"embed"
 	"fmt"
 	"sort"
 	"strings"
 	"sync"
 
 	"verif/internal/core"
+	"verif/internal/proglib"
 )
+
+//go:embed static/*.go.txt
+var staticFS embed.FS
 
 // Run is the C08 check.
 func Run(c *core.Ctx) int {
@@ -32,6 +37,16 @@ func Run(c *core.Ctx) int {
 	sort.Strings(names)
 	for _, k := range names {
 		jobs = append(jobs, job{"c08/" + k, un[k]})
+	}
+	// fixed programs: a sweep over (which deferred call of a 4-deep call chain panics, which one
+	// recovers, which of them suspend before/after), the forms in which recover() is or is not
+	// "called directly by a deferred function", and Goexit through nested deferred calls
+	for _, st := range []string{"defer_yield_sweep", "recover_forms", "goexit_nested"} {
+		src, err := staticFS.ReadFile("static/" + st + ".go.txt")
+		if err != nil {
+			panic(err)
+		}
+		jobs = append(jobs, job{"c08/static-" + st, proglib.WithLib(map[string]string{"main.go": string(src)})})
 	}
 	c.Parallel(len(jobs), func(i int) {
 		prog := &core.Program{Name: jobs[i].name, Files: jobs[i].files}
